@@ -125,3 +125,26 @@ Example ttl_label_depends_on_header :
   on_entries_labels 0 [("app", "v"); ("__ttl_days__", "5")]%string = [("app", "v")]%string /\
   on_entries_labels 7 [("app", "v"); ("__ttl_days__", "5")]%string = [("app", "v"); ("__ttl_days__", "5")]%string.
 Proof. split; reflexivity. Qed.
+
+(* ------------------------------------------------------------------ OTLP any-value trees (SanitizeValue) *)
+Lemma mfill_nodup l : NoDup (map fst (mfill l)).
+Proof.
+  unfold mfill. assert (G : forall l m, NoDup (map fst m) -> NoDup (map fst (fold_left (fun m kv => mset (fst kv) (snd kv) m) l m))).
+  { induction l0 as [|a l0 IH]; intros m H; cbn [fold_left]; [assumption|]. apply IH. now apply mset_nodup. }
+  apply G. constructor.
+Qed.
+
+(* the JSON object written for a key-value list has pairwise distinct member names, whatever keys the client sent
+   (keys that collide after SanitizeKey: the later value wins, as in the Go map) *)
+Lemma otlp_kvlist_members_distinct entries :
+  NoDup (map fst (mfill (map (fun kv => match kv with (k, x) => (otlp_key k, otlp_value x) end) entries))).
+Proof. apply mfill_nodup. Qed.
+
+Example otlp_value_tree_example :
+  otlp_value (OKv [("b.c"%string, OArr [OStr "x<y"; OInt (-3); OBool true; ONone; OBytes "hi!"; ODouble 4609434218613702656%N]);
+                   ("a"%string, ODouble 4591870180066957722%N);
+                   ("b-c"%string, OKv [("9"%string, OStr "z")])]) =
+  "{""a"":""0.1"",""b_c"":""{\""_9\"":\""z\""}""}"%string /\
+  otlp_value (OArr [OStr "x<y"; OInt (-3); OBool true; ONone; OBytes "hi!"; ODouble 4609434218613702656%N; OArr []]) =
+  "[""x\u003cy"",""-3"",""true"","""",""aGkh"",""1.5"",""[]""]"%string.
+Proof. vm_compute. split; reflexivity. Qed.
